@@ -643,11 +643,17 @@ class _State(object):
             t = op.get("inft", 0) % mc.p
             if t and not op["legacy"]:
                 order = decl_order(env, op["order"])
-                obj = env.le.PointJacobi(env.cf, t * t % mc.p,
-                                         t * t * t % mc.p, 0, order)
-                core.bump(self.out["probes"], "identity_z0")
-                self.put(obj, O)
-                return
+                try:
+                    obj = env.le.PointJacobi(env.cf, t * t % mc.p,
+                                             t * t * t % mc.p, 0, order)
+                except Exception:
+                    # a library may refuse this representation outright
+                    obj = None
+                    core.bump(self.out["probes"], "identity_z0_refused")
+                if obj is not None:
+                    core.bump(self.out["probes"], "identity_z0")
+                    self.put(obj, O)
+                    return
             self.put(env.le.INFINITY, O)
             return
         order = decl_order(env, op["order"])
